@@ -547,6 +547,13 @@ pub mod spec {
         &&& forall|j: int| 0 <= j < items.len() && !#[trigger] first_posword(items, j) ==> ledger[j] is Unparsed
         &&& forall|i: int, j: int| #![trigger items[i], items[j]] 0 <= i < j < items.len() && items[i] is PosWord ==> items[j] is PosWord
     }
+    /// C09/C11 "everything after the separator is handed to the parser as it was written": the items from the separator (item
+    /// index m) on are exactly the raw words from the separator (word index mw) on, one positional-only item per word, in order
+    pub open spec fn tail_raw(items: Seq<Arg>, m: int, all: Seq<OsString>, mw: int, k: int) -> bool {
+        0 <= mw < k <= all.len() && items.len() - m == k - mw
+            && forall|j: int| 0 <= j < k - mw ==> #[trigger] items[m + j] == Arg::PosWord(all[mw + j])
+    }
+
     pub open spec fn first_posword(items: Seq<Arg>, j: int) -> bool {
         0 <= j < items.len() && items[j] is PosWord && forall|i: int| 0 <= i < j ==> !(#[trigger] items[i] is PosWord)
     }
@@ -3012,6 +3019,7 @@ impl ArgScanner<'_> {
             r.wf() && r.scope.start == 0 && r.scope.end == r.items.len(), // #whole_line_in_scope
             *final(err) is None && no_comp(r) ==> dd_rule(r.items@, r.item_state@), // #only_the_first_double_dash_separates_and_is_pre_consumed
             r.path@ =~= (match args.name { Some(n) => seq![n], None => Seq::<String>::empty() }), // #command_path_starts_as_just_the_program_name
+            *final(err) is None ==> forall|m: int| first_posword(r.items@, m) ==> exists|mw: int| #[trigger] tail_raw(r.items@, m, args.items.rest(), mw, args.items.rest().len() as int), // #every_word_from_the_separator_on_is_delivered_as_written
 //@@ loop 1
             invariant_except_break
                 *err is None,
@@ -3021,9 +3029,17 @@ impl ArgScanner<'_> {
                 double_dash_marker matches Some(m) ==> m < items.len() && first_posword(items@, m as int) && is_dd(items[m as int]->PosWord_0) // #marker_is_the_item_index_of_the_first_double_dash
                     && forall|j: int| m <= j < items.len() ==> #[trigger] items[j] is PosWord,
                 double_dash_marker is None ==> forall|j: int| 0 <= j < items.len() ==> !(#[trigger] items[j] is PosWord),
+                verif_it_1.rest().len() <= all.len() && verif_it_1.rest() =~= all.skip(all.len() - verif_it_1.rest().len()),
+                double_dash_marker matches Some(m) ==> tail_raw(items@, m as int, all, mw, all.len() - verif_it_1.rest().len()), // #every_word_from_the_separator_on_is_delivered_as_written
+            ensures
+                *err is None ==> verif_it_1.rest().len() == 0,
             decreases verif_it_1.rest().len(),
 //@@ preloop 1
 proof { axiom_os_eq_ref_obeys(); }
+let ghost all = args.items.rest();
+let ghost mut mw: int = 0;
+//@@ insert after 1 `double_dash_marker = Some(items.len());`
+proof { mw = all.len() - verif_it_1.rest().len() - 1; }
 //@@ insert after 1 `let mut double_dash_marker`
 : Option<usize>
 //@@ insert before 1 `let mut path = Vec::new();`
@@ -3043,6 +3059,7 @@ proof {
 let ghost g_items = items@;
 //@@ insert before 1 `State {`
 proof {
+    if *err is None && double_dash_marker is Some { assert(tail_raw(g_items, double_dash_marker->Some_0 as int, all, mw, all.len() as int)); }
     assert forall|j: int| 0 <= j < g_items.len() && first_posword(g_items, j) implies double_dash_marker == Some(j as usize) by {
         if double_dash_marker is Some {
             let m = double_dash_marker->Some_0 as int;
